@@ -15,11 +15,13 @@ CHECK = {
                   "executed four times per (configuration, seed) and all snapshot files compared. The state space walked "
                   "is finite and completely enumerated inside the stated bound, which is why model checking of the state "
                   "machine is the natural level; the whole-run part is exhaustive exploration of a small configuration alphabet.",
-    "level_note": "Bound: about 340 (quick) / 4 200 (thorough) of the 2^31 seeds, 600 outputs, save points 0..40; nothing is "
-                  "claimed for other seeds beyond the argument in NOTES.md (the seeding is injective by construction and "
-                  "checked bit for bit against the reference on the alphabet). Whole runs: 6 configurations x 2 (quick) / 3 "
-                  "(thorough) seeds, one thread, on this machine; the HDF5 'Creation time' attribute is the only field "
-                  "excluded from the content comparison, and the byte comparison pins the calendar second with an LD_PRELOAD shim.",
+    "level_note": "Bound: 337 (quick) / 4 165 (thorough) of the 2^31 seeds with the full walk (600 outputs, save points 0..40), "
+                  "thorough additionally seeds 4096..131071 stream only; 57 024 / 215 424 boundary states injected through the "
+                  "restart constructor (alphabet {0,1,2,2^47,2^48-2,2^48-1}, <=2 / <=3 marked positions, both borrows, 12 "
+                  "alignments) so that every borrow decision sees exact ties. Nothing is claimed for other seeds beyond the "
+                  "argument in NOTES.md. Whole runs: 6 configurations x 2 (quick) / 3 (thorough) seeds, one thread, on this "
+                  "machine; the HDF5 'Creation time' attribute is the only field excluded from the content comparison, and the "
+                  "byte comparison pins the calendar second with an LD_PRELOAD shim.",
     "quick_deadline": 90,
     "thorough_deadline": 600,
     "parts": [
